@@ -26,6 +26,13 @@ chk("C11", "exhaustive small-scope enumeration of (matrix, permutation) pairs on
     "All matrices of the small scope (anonymous / <=2-3 named dimensions, value lists incl. empty, 0-2 adjustments incl. malformed, every skip kind, nil matrix) x all candidate permutations incl. wrong arity and unknown dimensions, built directly and through Parse; verdict == predicate, rejected permutations leave a deep snapshot unchanged; for a 2-dimension sub-scope every order of the four map range loops is explored through the iteration seam and the verdict must not vary.",
     "Bounded scope; nil dimension lists only checked for no-panic.", "DESIGN.md §3 C11")
 
+chk("C10", "exhaustive enumeration of env blocks x caller environments x flags on the real Interpolate vs. reference left fold",
+    "Every env block of <=3 (thorough 4, plus long chains) entries over small name/value alphabets (references, escapes, defaults, names built by expansion, forward references) x 14 caller environments x runtime-precedence flag x case mode x three environment implementations (harness-owned, the library's own, nil) is run through the real Pipeline.Interpolate and compared with a left fold written from the statement: block order/contents, probe strings in a step and a top-level field, caller env afterwards.",
+    "Single-string expansion delegated to buildkite/interpolate on both sides; name collisions under runtime precedence executed but not compared.", "DESIGN.md §3 C10")
+chk("C16", "exhaustive enumeration of (reflect.StructOf target type, document) pairs on the real unmarshaler vs. partition-rule oracle and yaml.v3 differential",
+    "Programs x inputs: all struct types of <=2/3 fields over a 15-field alphabet x 4 inline kinds, built at run time with reflect.StructOf; for each, every document over its keys/aliases/unknown/empty-string keys with per-key state absent/null/values, two key orders, sentinel-prefilled and zero destinations; result compared with the partition rule and (alias-free, well-typed) with yaml.v3's Node.Decode into the same type.",
+    "Append/merge-into-existing semantics excluded by pre-filling nil; nulls on non-nillable fields excluded from the yaml.v3 differential.", "DESIGN.md §3 C16")
+
 ALL = [f"C{i:02d}" for i in range(1,20)]
 NA_REASON = {}
 man = dict(version=1, setup_cmd="./setup.sh",
